@@ -104,9 +104,10 @@ Proof.
 Qed.
 Print Assumptions rollback_restores.
 
-(* finding: HUP to the re-executed master while the old one lives ends it, as long as reload() names the pid file without
-   ".2" (reload_names_dot2 = false on the tree as it stands; fixes/reload-pidfile-child-master.diff makes it true, and then
-   the new master survives the HUP holding '<pidfile>.2') *)
+(* HUP to the re-executed master while the old one lives: with reload() naming the pid file with ".2" while master_pid != 0
+   (reload_names_dot2 = true, read from the source by gen_upgrade.py; repaired in /repo by ecaf6c4) the new master survives the
+   HUP holding '<pidfile>.2'; with the rule as it was before the repair (false) the HUP ends it - both readings are proved, the
+   generated constant selects the one that describes the tree *)
 Theorem hup_to_new_master_refuted :
   exists c, let s := run c (init c) [USR2 A; HUP B] in
     if reload_names_dot2 then m_alive (mb s) = true /\ fsP2 s = Some (m_pid (mb s)) /\ fsP s = Some (m_pid (ma s))
